@@ -40,6 +40,7 @@ def alphabet(tier):
         for s in ("L", "B", "G"):
             ops.append(("addf", c, s))
     ops.append(("mig", "G", "L"))
+    ops.append(("mig", "L", "G"))   # into the legacy algorithm: hash-state rows recorded for md5 must not answer
     if tier == "thorough":
         ops.append(("mig", "G", "B"))
     for s in ("L", "B"):
